@@ -366,6 +366,15 @@ def check_closed_form(out, orb, blocks, L, kind, value, label, desc, tol=1e-3, f
     # crossings within tol of a sample (or of the ends) may legitimately fall on either side
     def near_sample(t):
         return any(abs(t - s) < 10 * tol for s in ts)
+    if ln.startswith("Anomaly"):
+        # the listener's own condition: a crossing is looked at only when the NEWER sample is within 2 rad of the target
+        def dropped(t):
+            later = [s for s, x in zip(samples, ts) if (x >= t if forward else x <= t)]
+            nxt = (min if forward else max)(later, key=lambda s: (s.date - orb.date).total_seconds()) if later else None
+            return nxt is not None and abs(L(nxt)) >= 2
+        drop = [t for t in exp if dropped(t)]
+        exp = [t for t in exp if t not in drop]
+        got = [t for t in got if not any(abs(t - d) <= tol for d in drop)]
     e2 = [t for t in exp if not near_sample(t)]
     g2 = [t for t in got if not near_sample(t)]
     ok = len(e2) == len(g2) and all(abs(x - y) <= tol for x, y in zip(e2, g2))
